@@ -116,6 +116,16 @@ class ParserModel:
                     else:
                         res.append(((UNKNOWN if unk else (not is_and)), s2))
             return res
+        if isinstance(e, ast.Compare) and len(e.ops) == 1 and isinstance(e.ops[0], (ast.Is, ast.IsNot, ast.Eq, ast.NotEq)):
+            out = []
+            for l, s1 in self.ev(e.left, st, env):
+                for r, s2 in self.ev(e.comparators[0], s1, env):
+                    if l is UNKNOWN or r is UNKNOWN or isinstance(l, tuple) or isinstance(r, tuple):
+                        out.append((UNKNOWN, s2))
+                    else:
+                        eq = (l is r) if isinstance(e.ops[0], (ast.Is, ast.IsNot)) else (l == r)
+                        out.append((eq if isinstance(e.ops[0], (ast.Is, ast.Eq)) else (not eq), s2))
+            return out
         if self.is_self_call(e, 'check_token'):
             out = []
             kinds = []
@@ -245,7 +255,7 @@ class ParserModel:
             raise AnalysisError('parser model: call depth exceeded in %s' % name)
         try:
             for ne, s in states:
-                for status, s2, val in self.block(f.node.body, s, ne):
+                for status, s2, _e, val in self.block(f.node.body, s, ne):
                     if status in ('next', 'return'):
                         out.append((val if status == 'return' else None, s2))
                     # 'raise': the path dies
@@ -271,13 +281,13 @@ class ParserModel:
                     if status == 'next':
                         nxt.append((s2, e2))
                     else:
-                        results.append((status, s2, val))
+                        results.append((status, s2, e2, val))
             states = self.dedupe(nxt)
             if not states:
                 break
         for s, e in states:
-            results.append(('next', s, None))
-        return results
+            results.append(('next', s, e, None))
+        return self.dedupe_results(results)
 
     @staticmethod
     def _vkey(v):
@@ -332,8 +342,8 @@ class ParserModel:
             for v, s in self.ev(n.test, st, env):
                 branches = [True, False] if v is UNKNOWN else [bool(v)]
                 for b in branches:
-                    for status, s2, val in self.block(n.body if b else n.orelse, s, env):
-                        out.append((status, s2, env, val))
+                    for status, s2, e2, val in self.block(n.body if b else n.orelse, s, env):
+                        out.append((status, s2, e2, val))
             return out
         if isinstance(n, ast.While):
             out = []
@@ -350,14 +360,14 @@ class ParserModel:
                         if not b:
                             out.append(('next', s1, env, None))
                             continue
-                        for status, s2, val in self.block(n.body, s1, env):
+                        for status, s2, e2, val in self.block(n.body, s1, env):
                             if status in ('next', 'continue'):
                                 if s2.key() != s.key():
                                     work.append((s2, it + 1))
                             elif status == 'break':
-                                out.append(('next', s2, env, None))
+                                out.append(('next', s2, e2, None))
                             else:
-                                out.append((status, s2, env, val))
+                                out.append((status, s2, e2, val))
             return out
         if isinstance(n, ast.For):
             # loops over values (directive lists, choices): the body may run zero or one more time; token effects inside such
@@ -438,7 +448,14 @@ class ParserModel:
                 if look is None:
                     accepted.add(seq)
                 continue
-            looks = [look] if look is not None else KINDS
+            if look is not None:
+                looks = [look]
+            elif not seq:
+                looks = ['StreamStartToken']        # the scanner's first token
+            elif seq[-1] == 'StreamEndToken':
+                looks = []                          # nothing follows the end of the stream
+            else:
+                looks = [k for k in KINDS if k != 'StreamStartToken']
             for lk in looks:
                 for (cons, look2, nstate, pops, pushed) in self.step(state, lk):
                     if len(seq) + len(cons) > self.max_len:
@@ -458,6 +475,9 @@ class ParserModel:
                     if not cons:
                         cfgk = (seq, lk, nstate, base + pushed2)
                     if len(cfgk[3]) > self.max_len + 2:
+                        continue
+                    # a decided look-ahead for which the next state has no surviving path is a dead end
+                    if cfgk[1] is not None and cfgk[2] is not None and not self.step(cfgk[2], cfgk[1]):
                         continue
                     if cfgk not in seen:
                         seen.add(cfgk)
@@ -531,12 +551,18 @@ def r_parser_grammar(ctx, repo, max_len=7):
     if start is None:
         raise AnalysisError('Parser.__init__: initial state not found')
     tc = dict(RSB.TOKEN_CLASS)
+    grammar = dict(RSB.GRAMMAR)
+    # The documented production block_mapping ::= ... ((KEY node?)? (VALUE node?)?)* ... would derive a VALUE without a KEY.
+    # Neither this parser nor LibYAML's accepts that (both insist on KEY); the reference used here is the stricter form.
+    grammar['block_mapping_entry'] = [[('block_mapping_key', '1'), ('block_mapping_value', '?')]]
+    ctx.assume('documented grammar, block_mapping: a VALUE without KEY is derivable on paper but rejected by both parsers; '
+               'the reference grammar requires KEY before VALUE in a block mapping')
     model = ParserModel(repo, P, max_len)
     try:
         acc, nconf = model.accepted(start)
     except Budget:
         raise AnalysisError('parser model: exploration budget exhausted')
-    gl = grammar_language(RSB.GRAMMAR, tc, 'stream', max_len)
+    gl = grammar_language(grammar, tc, 'stream', max_len)
     ctx.extra['parser_grammar'] = {'max_len': max_len, 'model_configurations': nconf, 'accepted_sequences': len(acc),
                                    'grammar_sentences': len(gl)}
     if len(gl) < 50:
